@@ -26,7 +26,8 @@ func (c *Ctx) InstantiateHints(asserts []*Term, maxPerQuant int) (extra []*Term,
 	}
 	type q struct {
 		t   *Term
-		neg bool // the quantifier is an exists under negation: forall v. not body
+		neg bool    // the quantifier is an exists under negation: forall v. not body
+		g   []*Term // guards: the fact holds unless one of these does (it sits under a disjunction)
 	}
 	var qs []q
 	var out []*Term
@@ -34,7 +35,13 @@ func (c *Ctx) InstantiateHints(asserts []*Term, maxPerQuant int) (extra []*Term,
 	seenQ := map[int]bool{}
 	// skolem: a negated universal (or an asserted existential) gets a witness constant, which is
 	// then the first candidate for instantiating the universal facts
-	skolem := func(t *Term, negBody bool) {
+	guarded := func(g []*Term, x *Term) *Term {
+		if len(g) == 0 {
+			return x
+		}
+		return c.Or(append(append([]*Term{}, g...), x)...)
+	}
+	skolem := func(t *Term, negBody bool, g []*Term) {
 		if len(t.Bound) != 1 || seenQ[t.id] {
 			return
 		}
@@ -48,54 +55,81 @@ func (c *Ctx) InstantiateHints(asserts []*Term, maxPerQuant int) (extra []*Term,
 		if t.Name == "range" {
 			w = c.And(c.Sle(c.Const(uint64(int64(t.I1)), v.S.W), sk), c.Slt(sk, c.Const(uint64(int64(t.I2)), v.S.W)), w)
 		}
-		out = append(out, w)
+		out = append(out, guarded(g, w))
 		sks = append(sks, sk)
 	}
-	var pos, neg func(t *Term)
-	pos = func(t *Term) {
+	var pos, neg func(t *Term, g []*Term)
+	// split: a disjunction (conjunction under negation) with exactly one quantified member is
+	// entered through that member, the others become guards
+	split := func(args []*Term, negate bool) (*Term, []*Term, bool) {
+		var qm *Term
+		var rest []*Term
+		for _, a := range args {
+			if hq(a) {
+				if qm != nil {
+					return nil, nil, false
+				}
+				qm = a
+			} else if negate {
+				rest = append(rest, c.Not(a))
+			} else {
+				rest = append(rest, a)
+			}
+		}
+		return qm, rest, qm != nil
+	}
+	pos = func(t *Term, g []*Term) {
 		if !hq(t) {
-			qfree = append(qfree, t)
+			qfree = append(qfree, guarded(g, t))
 			return
 		}
 		switch t.Op {
 		case "and":
 			for _, a := range t.Args {
-				pos(a)
+				pos(a, g)
+			}
+		case "or":
+			if qm, rest, ok := split(t.Args, false); ok && len(g)+len(rest) <= 6 {
+				pos(qm, append(append([]*Term{}, g...), rest...))
 			}
 		case "not":
-			neg(t.Args[0])
+			neg(t.Args[0], g)
 		case "forall":
 			if len(t.Bound) == 1 && !seenQ[t.id] {
 				seenQ[t.id] = true
-				qs = append(qs, q{t, false})
+				qs = append(qs, q{t, false, g})
 			}
 		case "exists":
-			skolem(t, false)
+			skolem(t, false, g)
 		}
 	}
-	neg = func(t *Term) {
+	neg = func(t *Term, g []*Term) {
 		if !hq(t) {
-			qfree = append(qfree, c.Not(t))
+			qfree = append(qfree, guarded(g, c.Not(t)))
 			return
 		}
 		switch t.Op {
 		case "or":
 			for _, a := range t.Args {
-				neg(a)
+				neg(a, g)
+			}
+		case "and":
+			if qm, rest, ok := split(t.Args, true); ok && len(g)+len(rest) <= 6 {
+				neg(qm, append(append([]*Term{}, g...), rest...))
 			}
 		case "not":
-			pos(t.Args[0])
+			pos(t.Args[0], g)
 		case "exists":
 			if len(t.Bound) == 1 && !seenQ[t.id] {
 				seenQ[t.id] = true
-				qs = append(qs, q{t, true})
+				qs = append(qs, q{t, true, g})
 			}
 		case "forall":
-			skolem(t, true)
+			skolem(t, true, g)
 		}
 	}
 	for _, a := range asserts {
-		pos(a)
+		pos(a, nil)
 	}
 	if len(qs) == 0 {
 		return out, qfree
@@ -175,10 +209,71 @@ func (c *Ctx) InstantiateHints(asserts []*Term, maxPerQuant int) (extra []*Term,
 		return cs[i].id < cs[j].id
 	})
 	cs = append(append([]*Term{}, sks...), cs...)
+	// ground reads per array term: index terms to match quantifier bodies against
+	reads := map[int][]*Term{}
+	{
+		seenR := map[int]bool{}
+		var wr func(t *Term)
+		wr = func(t *Term) {
+			if seenR[t.id] {
+				return
+			}
+			seenR[t.id] = true
+			if t.Op == "select" && !t.open && !t.Args[1].IsConst() {
+				reads[t.Args[0].id] = append(reads[t.Args[0].id], t.Args[1])
+			}
+			for _, a := range t.Args {
+				wr(a)
+			}
+		}
+		for _, a := range asserts {
+			wr(a)
+		}
+	}
 	for _, qq := range qs {
 		v := qq.t.Bound[0]
+		// matching: the body reads A[base + v] and the problem reads A[idx] for the same array term
+		// A: instantiate at idx - base (what E-matching with arithmetic would find)
+		var matched []*Term
+		{
+			seenM := map[int]bool{}
+			seenB := map[int]bool{}
+			var wb func(t *Term)
+			wb = func(t *Term) {
+				if seenB[t.id] || !t.open {
+					return
+				}
+				seenB[t.id] = true
+				if t.Op == "select" && !t.Args[0].open && len(reads[t.Args[0].id]) > 0 {
+					idx := t.Args[1]
+					if idx.S != v.S {
+						for _, a := range t.Args {
+							wb(a)
+						}
+						return
+					}
+					base := c.BVSub(idx, v) // ground iff v occurs exactly once with coefficient 1
+					if !base.open {
+						for _, gi := range reads[t.Args[0].id] {
+							if gi.S != v.S {
+								continue
+							}
+							cand := c.BVSub(gi, base)
+							if !cand.open && !seenM[cand.id] && len(matched) < maxPerQuant {
+								seenM[cand.id] = true
+								matched = append(matched, cand)
+							}
+						}
+					}
+				}
+				for _, a := range t.Args {
+					wb(a)
+				}
+			}
+			wb(qq.t.Args[0])
+		}
 		n := 0
-		for _, t := range cs {
+		for _, t := range append(append([]*Term{}, matched...), cs...) {
 			if t.S != v.S {
 				continue
 			}
@@ -195,7 +290,7 @@ func (c *Ctx) InstantiateHints(asserts []*Term, maxPerQuant int) (extra []*Term,
 				inst = c.Or(c.Not(c.And(c.Sle(c.Const(uint64(int64(qq.t.I1)), w), t), c.Slt(t, c.Const(uint64(int64(qq.t.I2)), w)))), inst)
 			}
 			if !inst.IsTrue() {
-				out = append(out, inst)
+				out = append(out, guarded(qq.g, inst))
 			}
 		}
 	}
@@ -264,4 +359,26 @@ func SmallAsserts(asserts []*Term, maxNodes int) []*Term {
 		}
 	}
 	return out
+}
+
+// HasLambda reports whether t contains a lambda (array comprehension) term.
+func HasLambda(t *Term) bool {
+	seen := map[int]bool{}
+	var rec func(t *Term) bool
+	rec = func(t *Term) bool {
+		if seen[t.id] {
+			return false
+		}
+		seen[t.id] = true
+		if t.Op == "lambda" {
+			return true
+		}
+		for _, a := range t.Args {
+			if rec(a) {
+				return true
+			}
+		}
+		return false
+	}
+	return rec(t)
 }
